@@ -39,6 +39,8 @@ var commonAssumptions = []string{
 
 func checks() []Check {
 	return []Check{
+		{ID: "DEBUG", Level: "model_checking", Rule: "debug", Assumptions: commonAssumptions,
+			Units: []Unit{{Name: "debug", Pkg: ".", Tags: "verifmc", Test: "TestMC_Debug", Instrument: true, Env: []string{"GOMAXPROCS=2"}}}},
 		{ID: "SMOKE", Level: "model_checking", Rule: "smoke", Assumptions: commonAssumptions,
 			Units: []Unit{{Name: "smoke", Pkg: ".", Tags: "verifmc", Test: "TestMC_Smoke", Instrument: true, Env: []string{"GOMAXPROCS=2"}}}},
 		{
